@@ -93,6 +93,38 @@ def explore(res, rng, n):
                                              'clause': 'the stress-range array of the caller was modified', 'input': [lo, hi, st, nn],
                                              'impl_output': arr.tolist()})
                         arr = np.array([lo, hi], dtype=float)
+        # ---- integer / single-precision stress arrays and numpy scalars of every kind: the result is that of the same real numbers
+        if i % 5 == 1:
+            import numpy as np
+            lo_i, hi_i = rng.choice([(15000, 25000), (-100, 100), (100, 200), (11000, 12000), (0, 30000)])
+            st_i, n_i = float(rng.choice([40000, 400, 100000])), rng.choice([1, 1.0, 2, 3, 1.5])
+            res.stat('narrow_integer_and_float32_arrays')
+            for kind, fname in FNS.items():
+                f = getattr(lcc, fname)
+                try:
+                    want = float(f([float(lo_i), float(hi_i)], st_i, float(n_i)))
+                except ValueError:
+                    continue
+                variants = {}
+                for dt in (np.int16, np.int32, np.uint8, np.int8, np.float32, np.int64):
+                    info = np.iinfo(dt) if np.issubdtype(dt, np.integer) else None
+                    if info is None or (info.min <= lo_i and hi_i <= info.max):
+                        variants[np.dtype(dt).name + '-array'] = (lambda dt=dt: f(np.array([lo_i, hi_i], dtype=dt), st_i, n_i))
+                variants['numpy-int-strength'] = lambda: f([float(lo_i), float(hi_i)], np.int64(int(st_i)), n_i)
+                variants['float32-scalars'] = lambda: f([float(lo_i), float(hi_i)], np.float32(st_i), np.float32(n_i))
+                for vn, call in variants.items():
+                    res.evaluations += 1
+                    try:
+                        got = float(call())
+                    except Exception as e:  # noqa
+                        res.failures.append({'signature': f'C09:{fname}:{vn}:raises:{lo_i}:{hi_i}:{st_i}:{n_i}', 'api': fname,
+                                             'clause': f'admissible input rejected when passed as {vn}: {type(e).__name__} {str(e)[:80]}',
+                                             'input': [lo_i, hi_i, st_i, n_i]})
+                        continue
+                    if not gen.close(got, want, 1e-9):
+                        res.failures.append({'signature': f'C09:{fname}:{vn}:value:{lo_i}:{hi_i}:{st_i}:{n_i}', 'api': fname,
+                                             'clause': f'defining relation violated when the same numbers are passed as {vn}',
+                                             'input': [lo_i, hi_i, st_i, n_i], 'impl_output': [got, want]})
         # ordering Gerber <= Goodman <= Soderberg for sy <= su (non-negative mean stress)
         if lo + hi >= 0:
             sy = st
